@@ -15,9 +15,13 @@ def Stk.valid (K : Closures) (s : Stk) : Bool :=
 
 /-- the stack a value lets Traverse descend into: a Stack (any form), or a Condition (any form)
 whose expression is a Stack -/
+def stkOf : Val → Option Stk
+  | .stk _ c xs => some { cfg := c, xs := xs }
+  | _ => none
+
 def descendInto : Val → Option Stk
   | .stk _ c xs => some { cfg := c, xs := xs }
-  | .cnd _ _ _ _ (.stk _ c xs) => some { cfg := c, xs := xs }
+  | .cnd _ _ _ _ ex => stkOf ex
   | _ => none
 
 /-- what is handed back for the last index: a Condition alias comes back as the native handle of
